@@ -165,7 +165,7 @@ Fixpoint tlvset_scan (fuel : nat) (buf : bytes) (total : nat) : res nat :=
   match fuel with
   | O => if (length buf =? 0)%nat then ROk total else RErr EBufferTooShort
   | S fuel' =>
-      if (4 <? blen buf) then
+      if (4 <=? blen buf) then        (* `while buffer.len() >= 4` (repaired F5) *)
         let len := be_decode (slice 2 2 buf) in
         if len mod 2 =? 1 then RErr EInvalid
         else if blen buf <? 4 + len then RErr EBufferTooShort
@@ -181,7 +181,7 @@ Fixpoint tlvset_iter (fuel : nat) (buf : bytes) : list tlv :=
   match fuel with
   | O => []
   | S fuel' =>
-      if blen buf <=? 4 then []
+      if blen buf <? 4 then []        (* repaired F5 *)
       else
         let len := Z.to_nat (be_decode (slice 2 2 buf)) in
         mkTlv (canon_tlv_type (be_decode (slice 0 2 buf))) (slice 4 len buf)
